@@ -25,9 +25,9 @@ func (c *verifCounter) RegisterCustomCounter(label string) func(int) {
 }
 
 type verifDateRec struct {
-	calls                          int
-	y, mon, d, h, mi, s, ns, off   int
-	local                          bool
+	calls                        int
+	y, mon, d, h, mi, s, ns, off int
+	local                        bool
 }
 
 var verifDate verifDateRec
